@@ -153,7 +153,7 @@ Section FindTie.
       destruct (list_cases _ gs0) as [E|[[t E]|[t [t2 [r E]]]]]; [congruence| |].
       - assert (Hl1 : length gs0 = 1%nat) by (rewrite E; reflexivity).
         assert (Efb : find_buckets B b0 wf0 gs0 bi owner pos = Some O) by (rewrite E; reflexivity).
-        rewrite Efb, Hl1. unfold nxt. cbn. reflexivity.
+        rewrite Efb, Hl1. unfold nxt. change (1 <? Z.of_nat 1) with false. cbv iota. change (0 =? 0) with true. cbv iota. reflexivity.
       - assert (Hl2 : (2 <= length gs0)%nat) by (rewrite E; cbn [length]; lia).
         assert (En : nxt (length gs0) 1 =? 0 = false).
         { unfold nxt. replace (1 <? Z.of_nat (length gs0)) with true by (symmetry; apply Z.ltb_lt; lia). reflexivity. }
